@@ -1,4 +1,4 @@
-(* Properties/C03.v -- Guaranteed Reed-Solomon correction capacity (what is a theorem so far). *)
+(* Properties/C03.v -- Guaranteed Reed-Solomon correction capacity: the full statement (C03_corrects) and its parts. *)
 From Coq Require Import Arith NArith List Bool.
 From DM Require Import Generated.Symbols Spec.GF256 Spec.Poly Spec.RSCode Model.Outcome Model.RSEnc Model.RSDec Proofs.SymbolListProofs Proofs.RSDecProofs Proofs.MinDistance Proofs.LDBound Proofs.NoMiscorrection Proofs.RSComplete.
 Import ListNotations.
